@@ -41,6 +41,7 @@ package whispertool
 //@   ensures floor: result == a.secondsPerPoint * (t fdiv a.secondsPerPoint)
 //@   ensures le: result <= t && t - result < a.secondsPerPoint
 //@   ensures aligned: alignedTo(result, a.secondsPerPoint)
+//@   ensures floorto: result == floorTo(t, a.secondsPerPoint)
 
 //@ func (*ArchiveInfo).pointIndex
 //@   props C01 C06
@@ -61,6 +62,7 @@ package whispertool
 //@   ensures exact: 0 <= index && a.offset + 12 * index <= 4294967295 ==> result == a.offset + 12 * index
 
 //@ spec alignedTo(t int, s int) opaque bool = t fmod s == 0
+//@ spec floorTo(t int, s int) opaque int = s * (t fdiv s)
 //@ spec sortedByTime(points []Point) bool = forall i, j :: 0 <= i && i < j && j < len(points) ==> points[i].Time <= points[j].Time
 
 //@ func extractPoints
@@ -691,3 +693,58 @@ package whispertool
 //@   invariant out_last: archiveID + 1 == len(w.header.archiveInfoList) ==> len(propagatedTs) == 0
 //@   invariant out_aligned: archiveID + 1 < len(w.header.archiveInfoList) ==> forall j :: 0 <= j && j < len(propagatedTs) ==> alignedTo(propagatedTs[j], stepOf(w, archiveID + 1))
 //@   invariant out_fresh: (len(propagatedTs) == 0 && propagatedTs.arr == 0) || propagatedTs.arr > old(top)
+
+//@ spec dcount(r row:Point, off int, n int, s int) rec int = ite(n <= 0, 0, dcount(r, off, n - 1, s) + ite(n == 1 || floorTo(r[off + n - 1].Time, s) != floorTo(r[off + n - 2].Time, s), 1, 0))
+
+//@ func (*ArchiveInfo).timesToPropagate
+//@   props C02
+//@   requires a != nil && validArchive(*a) && sortedByTime(points)
+//@   ensures fresh: (len(result) == 0 && result.arr == 0) || fresh(result)
+//@   ensures bound: len(result) <= len(points)
+//@   ensures aligned: forall j :: 0 <= j && j < len(result) ==> alignedTo(result[j], a.secondsPerPoint)
+//@   ensures le: forall j :: 0 <= j && j < len(result) ==> result[j] <= points[len(points) - 1].Time
+//@   ensures count: len(result) == dcount(row(points), points.off, len(points), a.secondsPerPoint)
+//@   ensures covers: forall i :: 0 <= i && i < len(points) ==> 1 <= dcount(row(points), points.off, i + 1, a.secondsPerPoint)
+//@                 && dcount(row(points), points.off, i + 1, a.secondsPerPoint) <= len(result)
+//@                 && result[dcount(row(points), points.off, i + 1, a.secondsPerPoint) - 1] == floorTo(points[i].Time, a.secondsPerPoint)
+//@ loop (*ArchiveInfo).timesToPropagate#0
+//@   invariant bounds: 0 <= iter && iter <= len(points)
+//@   invariant fresh: (len(ts) == 0 && ts.arr == 0) || ts.arr > old(top)
+//@   invariant bound: len(ts) <= iter
+//@   invariant aligned: forall j :: 0 <= j && j < len(ts) ==> alignedTo(ts[j], a.secondsPerPoint)
+//@   invariant le: forall j :: 0 <= j && j < len(ts) ==> ts[j] <= points[len(points) - 1].Time
+//@   invariant count: len(ts) == dcount(row(points), points.off, iter, a.secondsPerPoint)
+//@   invariant last: iter > 0 ==> len(ts) > 0 && ts[len(ts) - 1] == floorTo(points[iter - 1].Time, a.secondsPerPoint)
+//@   invariant next: dcount(row(points), points.off, iter + 1, a.secondsPerPoint) >= dcount(row(points), points.off, iter, a.secondsPerPoint)
+//@   invariant covers: forall i :: 0 <= i && i < iter ==> 1 <= dcount(row(points), points.off, i + 1, a.secondsPerPoint)
+//@                 && dcount(row(points), points.off, i + 1, a.secondsPerPoint) <= len(ts)
+//@                 && ts[dcount(row(points), points.off, i + 1, a.secondsPerPoint) - 1] == floorTo(points[i].Time, a.secondsPerPoint)
+
+//@ func (*Whisper).propagateChain
+//@   props C02 C01 C05
+//@   requires handleOK(w) && 0 <= archiveID && archiveID < len(w.header.archiveInfoList) && clockOK(w, now)
+//@   requires sortedByTime(alignedPoints) && len(alignedPoints) > 0 && alignedPoints[len(alignedPoints) - 1].Time <= now
+//@   modifies fb(w.fileBuf)
+//@   ensures kind: result == nil || isio(result)
+//@   ensures frame: forall k :: k < archOf(w, archiveID).offset + 12 * countOf(w, archiveID) ==> fbyte(w.fileBuf, k) == old(fbyte(w.fileBuf, k))
+//@ loop (*Whisper).propagateChain#0
+//@   invariant bounds: archiveID + 1 <= lowRetID && lowRetID <= len(w.header.archiveInfoList)
+//@   invariant ts: forall j :: 0 <= j && j < len(ts) ==> ts[j] <= now
+//@   invariant offs: lowRetID < len(w.header.archiveInfoList) ==> archOf(w, lowRetID).offset >= archOf(w, archiveID).offset + 12 * countOf(w, archiveID)
+//@   invariant frame: forall k :: k < archOf(w, archiveID).offset + 12 * countOf(w, archiveID) ==> fbyte(w.fileBuf, k) == old(fbyte(w.fileBuf, k))
+
+//@ spec rejectSingle(w *Whisper, t int, now int) bool = t <= now - w.header.maxRetention || now < t
+//@ spec writeSlot(w *Whisper, k int, iv int) int = ite(old(baseOf(w, k)) == 0, 0, idxOf(archOf(w, k), old(baseOf(w, k)), iv))
+
+//@ func (*Whisper).UpdatePointForArchive
+//@   props C03 C01 C05
+//@   requires handleOK(w) && now != 0 && clockOK(w, now) && -1 <= archiveID && archiveID < len(w.header.archiveInfoList)
+//@   requires 0 <= w.header.maxRetention && w.header.maxRetention <= now
+//@   modifies fb(w.fileBuf)
+//@   ensures[C03] rejected: rejectSingle(w, t, now) ==> result != nil && !isio(result) && frow(w.fileBuf) == old(frow(w.fileBuf))
+//@   ensures[C03] accepted: !rejectSingle(w, t, now) ==> result == nil || isio(result)
+//@   ensures[C03,C01] stored: forall k :: chosen(w, archiveID, k, t, now) && !rejectSingle(w, t, now) && result == nil
+//@                 && (old(baseOf(w, k)) == 0 || (-2147483648 < floorTo(t, stepOf(w, k)) - old(baseOf(w, k)) && floorTo(t, stepOf(w, k)) - old(baseOf(w, k)) <= 2147483647
+//@                                               && alignedTo(floorTo(t, stepOf(w, k)) - old(baseOf(w, k)), stepOf(w, k))))
+//@                 ==> slotT(w, k, writeSlot(w, k, floorTo(t, stepOf(w, k)))) == floorTo(t, stepOf(w, k)) && slotB(w, k, writeSlot(w, k, floorTo(t, stepOf(w, k)))) == bits(v)
+//@   ensures[C01,C05] finer_untouched: forall k :: chosen(w, archiveID, k, t, now) ==> forall b :: b < archOf(w, k).offset ==> fbyte(w.fileBuf, b) == old(fbyte(w.fileBuf, b))
